@@ -2,23 +2,14 @@ package c08
 
 import (
 	"fmt"
-	"runtime"
 	"strings"
-	"sync/atomic"
-	"time"
 
 	"pgregory.net/rapid"
 
-	spb "github.com/openconfig/gribi/v1/proto/service"
-	"github.com/openconfig/gribigo/constants"
-	"github.com/openconfig/gribigo/rib"
-	"github.com/openconfig/ygot/ygot"
-
-	"verifh/internal/drive"
 	"verifh/internal/ev"
 	"verifh/internal/gen"
 	"verifh/internal/hgen"
-	"verifh/internal/l1"
+	"verifh/internal/inject"
 	"verifh/internal/model"
 	"verifh/internal/obs"
 )
@@ -38,102 +29,24 @@ type Inject struct {
 func runInject(c Case) *ev.Verdict {
 	v := &ev.Verdict{}
 	in := c.Inject
-	r := l1.NewRIB(false, l1.Opts{})
-	m := model.New("DEFAULT", hgen.NIs[1:], false)
-	for _, st := range c.H.Steps {
-		if st.Op == nil {
-			continue
-		}
-		op := st.Op.Proto()
-		if op.GetOp() == spb.AFTOperation_DELETE {
-			r.DeleteEntry(st.Op.NI, op)
-		} else {
-			r.AddEntry(st.Op.NI, op)
-		}
-		m.BeliefApply(st.Op.NI, op)
-	}
-	pre, err := obs.FromRIB(r)
-	if err != nil {
-		v.Fail("C08/contents-unreadable", "before the flush: %v", err)
+	res := inject.Run(c.H, inject.Spec{Flush: in.Flush, At: in.At, Op: in.Op}, nil)
+	r, m := res.R, res.Before
+	if res.Pre == nil {
+		v.Fail("C08/contents-unreadable", "before the flush")
 		return v
 	}
-	if d := obs.Diff(obs.FromModel(m), pre); len(d) > 0 {
+	if !res.PreOK {
 		// the preload is C01's subject; without an exact starting point nothing can be said here
-		v.Inconclusive = ""
 		v.Class("inject:preload-differs-from-belief")
 		return v
 	}
 	nonEmpty := map[string]bool{}
-	for k := range pre {
+	for k := range res.Pre {
 		nonEmpty[k.NI] = true
 	}
-
 	op := in.Op.Proto()
-	var calls int32
-	var injected, parked bool
-	done := make(chan struct{})
-	var opGID atomic.Int64
-	var oks, fails []*rib.OpResult
-	var operr error
-	runOp := func() {
-		defer close(done)
-		opGID.Store(drive.CurGID())
-		if op.GetOp() == spb.AFTOperation_DELETE {
-			oks, fails, operr = r.DeleteEntry(in.Op.NI, op)
-		} else {
-			oks, fails, operr = r.AddEntry(in.Op.NI, op)
-		}
-	}
-	var flushing atomic.Bool
-	var hookHang *drive.Hang
-	r.SetPostChangeHook(func(constants.OpType, int64, string, ygot.ValidatedGoStruct) {
-		if !flushing.Load() || drive.CurGID() == opGID.Load() {
-			return
-		}
-		if int(atomic.AddInt32(&calls, 1)) != in.At {
-			return
-		}
-		injected = true
-		go runOp()
-		deadline := time.Now().Add(drive.Watchdog)
-		for {
-			select {
-			case <-done:
-				return
-			default:
-			}
-			if gid := opGID.Load(); gid != 0 {
-				for _, g := range drive.Parse(drive.Dump()) {
-					if g.ID == gid && lockWait(g.State) && g.Has("github.com/openconfig/gribigo/") {
-						parked = true
-						return
-					}
-				}
-			}
-			if time.Now().After(deadline) {
-				d := drive.Dump()
-				hookHang = &drive.Hang{What: "operation injected during Flush", Blocked: drive.BlockedInGribigo(drive.Parse(d), opGID.Load()), Dump: d}
-				return
-			}
-			runtime.Gosched()
-		}
-	})
-	var ferr error
-	flushing.Store(true)
-	hg := drive.Watch("Flush with an injected operation", func() { ferr = r.Flush(in.Flush) })
-	flushing.Store(false)
-	if hg == nil && injected {
-		select {
-		case <-done:
-		case <-time.After(drive.Watchdog):
-			d := drive.Dump()
-			hg = &drive.Hang{What: "operation injected during Flush (after the Flush returned)", Blocked: drive.BlockedInGribigo(drive.Parse(d), opGID.Load()), Dump: d}
-		}
-	}
-	if hg == nil {
-		hg = hookHang
-	}
-	if hg != nil {
+	injected, parked := res.Injected, res.Parked
+	if hg := res.Hang; hg != nil {
 		if hg.Blocked != "" {
 			v.Fail("C08/hang:"+hg.Blocked, "%s\n%s", hg.Error(), hg.Dump[:min(len(hg.Dump), 5000)])
 		} else {
@@ -148,8 +61,8 @@ func runInject(c Case) *ev.Verdict {
 	} else {
 		v.Class("inject:operation-completed-inside-the-flush")
 	}
-	if ferr != nil {
-		v.Fail("C08/flush-error", "Flush(%v) with %s injected at notification %d returned %v", in.Flush, in.Op, in.At, ferr)
+	if res.FlushErr != nil {
+		v.Fail("C08/flush-error", "Flush(%v) with %s injected at notification %d returned %v", in.Flush, in.Op, in.At, res.FlushErr)
 	}
 	got, err := obs.FromRIB(r)
 	if err != nil {
@@ -169,8 +82,8 @@ func runInject(c Case) *ev.Verdict {
 	}
 	da, db := obs.Diff(obs.FromModel(a), got), obs.Diff(obs.FromModel(b), got)
 	if len(da) > 0 && len(db) > 0 {
-		res := fmt.Sprintf("oks=%d fails=%d err=%v", len(oks), len(fails), operr)
-		v.Fail("C08/flush-not-atomic:"+obs.DiffClass(db), "Flush(%v) with %s started at its notification %d (%s; operation waited for a lock: %v): the resulting contents equal neither 'operation, then flush' (%s) nor 'flush, then operation' (%s)", in.Flush, in.Op, in.At, res, parked, strings.Join(da, "; "), strings.Join(db, "; "))
+		rs := fmt.Sprintf("oks=%d fails=%d err=%v", len(res.OKs), len(res.Fails), res.OpErr)
+		v.Fail("C08/flush-not-atomic:"+obs.DiffClass(db), "Flush(%v) with %s started at its notification %d (%s; operation waited for a lock: %v): the resulting contents equal neither 'operation, then flush' (%s) nor 'flush, then operation' (%s)", in.Flush, in.Op, in.At, rs, parked, strings.Join(da, "; "), strings.Join(db, "; "))
 		return v
 	}
 	fin := model.New("DEFAULT", hgen.NIs[1:], false)
@@ -180,14 +93,6 @@ func runInject(c Case) *ev.Verdict {
 	obs.CheckCounters(fin, r, v, "C08/counter-vs-referrers", fmt.Sprintf("after Flush(%v) with %s injected at notification %d", in.Flush, in.Op, in.At))
 	v.NonTrivial = injected && len(nonEmpty) >= 2
 	return v
-}
-
-func lockWait(state string) bool {
-	switch state {
-	case "sync.Mutex.Lock", "sync.RWMutex.Lock", "sync.RWMutex.RLock", "semacquire":
-		return true
-	}
-	return false
 }
 
 func drawInject(rt *rapid.T) Case {
